@@ -68,15 +68,14 @@ fn c09_offset_buffer_rejects_invalid() {
 
 //@ tier: quick
 //@ functions: arrow_buffer::OffsetBuffer::<i32>::from_lengths
-//@ bound: 0..=3 lengths each < 2^29 (so the i32 total cannot overflow): result starts at 0, has n+1 monotone entries and entry k+1 - entry k = length k; unwind 7
+//@ bound: exactly 3 lengths each < 2^29 (so the i32 total cannot overflow): result starts at 0, has n+1 monotone entries and entry k+1 - entry k = length k; unwind 7
 //@ stub: alloc::fmt::format -> empty String
 #[kani::proof]
 #[kani::unwind(7)]
 #[kani::stub(alloc::fmt::format, stub_format)]
 fn c09_offset_buffer_from_lengths() {
     let lens: [usize; 3] = kani::any();
-    let n: usize = kani::any();
-    kani::assume(n <= 3);
+    let n: usize = 3; // concrete: a symbolic count grows the Vec by a symbolic amount (memory cap)
     kani::assume(lens[0] < (1 << 29) && lens[1] < (1 << 29) && lens[2] < (1 << 29));
     let ob = OffsetBuffer::<i32>::from_lengths(lens[..n].iter().copied());
     assert!(ob.len() == n + 1 && ob[0] == 0, "n+1 offsets starting at zero");
